@@ -77,7 +77,8 @@ def check_case(case, res=None):
                             f"{type(pkg.error).__name__}: {pkg.error}")
         files_a = pkg.generated_files()
         # ---- B: in-process, permuted walk, reversed creation order, pre-populated output, twice
-        xml_b = os.path.join(pkg.root, "xml_b")
+        # directory names are arbitrary: blanks, brackets, percent and hash signs, accents
+        xml_b = os.path.join(pkg.root, "xml b [v2] (copy) #1 100% \u00e9")
         rendered = spec.render_tree(tree)
         # the same documents spelled differently (line ends, XML comments, attribute order and quotes, <x></x>,
         # byte order mark, no declaration), next to files a checkout of the protocol also holds
@@ -126,7 +127,7 @@ def check_case(case, res=None):
                 g.generate(Path(out_b))
             # B2: a drawn permutation of the walk, fresh output directory
             os.walk = permuted_walk(case.get("walk_seed", 1) or 1)
-            out_b2 = os.path.join(pkg.root, "out_b2")
+            out_b2 = os.path.join(pkg.root, "build [x]", "lib", "eolib", "protocol", "_generated")   # nothing of it exists yet
             with contextlib.redirect_stdout(io.StringIO()):
                 gm.ProtocolCodeGenerator(Path(xml_b)).generate(Path(out_b2))
         except Exception as e:  # noqa
